@@ -202,12 +202,12 @@ func verifyRequestDestinationOfAuthRequest(metadata *md.IDPSSODescriptorType, re
 	return nil
 }
 
-func verifyRequestDestinationOfAttrQuery(metadata *md.IDPSSODescriptorType, request *samlp.AttributeQueryType) error {
+func verifyRequestDestinationOfAttrQuery(metadata *md.AttributeAuthorityDescriptorType, request *samlp.AttributeQueryType) error {
 	// google provides no destination in their requests
 	if request.Destination != "" {
 		foundEndpoint := false
-		for _, sso := range metadata.SingleSignOnService {
-			if request.Destination == sso.Location {
+		for _, attributeService := range metadata.AttributeService {
+			if request.Destination == attributeService.Location {
 				foundEndpoint = true
 				break
 			}
